@@ -156,6 +156,6 @@ def rule_r3(ctx):
 
 
 def run(ctx):
-    rule_r1(ctx)
-    rule_r2(ctx)
-    rule_r3(ctx)
+    ctx.guard(rule_r1)
+    ctx.guard(rule_r2)
+    ctx.guard(rule_r3)
